@@ -688,6 +688,20 @@ pub fn stdin_oracle(property: &str, inv: &Invocation, ex: &Expected, run: &RunRe
     let fired: BTreeSet<String> = run.trace.fired.iter().map(|f| format!("{}:{}", f.site, f.kind)).collect();
     let stdin_eio = fired.contains("stdin.read:EIO");
     let epipe = fired.contains("stdout.write:EPIPE");
+    if fired.contains("stdout.write:EAGAIN") {
+        // give up with an error, or carry on from where the write stopped: never anything else
+        let ok_fail = run.status == 2;
+        let ok_full = run.status == ex.status && (inv.opts.check || ex.stdin_stdout.as_deref().map(|e| e == &run.stdout[..]).unwrap_or(run.stdout.is_empty()));
+        if !(ok_fail || ok_full) {
+            out.push(v(
+                property,
+                "stdin/stdout-would-block-mishandled".into(),
+                format!("status {} stdout {} bytes (expected {:?} bytes)", run.status, run.stdout.len(), ex.stdin_stdout.as_ref().map(|e| e.len())),
+                idx,
+            ));
+        }
+        return out;
+    }
     let suffix = if kf8 { "/respect-ignores-stdin-filepath-non-nearest-ignore-file" } else { "" };
     if stdin_eio {
         // may fail, never wrong data
